@@ -425,4 +425,96 @@ theorem stNE_plant (path : List (Aff α)) (st : NState α) (pts : List (List α)
   | infeasible => simpa [NState.plant] using h
   | feasible => simpa [NState.plant] using h
 
+/-! ### witness lists are never empty — for every LP behaviour (the `assert!` of `phase_one`) -/
+
+/-- no cached witness list is empty -/
+def StWNE (_path : List (Aff α)) (st : NState α) : Prop := ∀ ws, st = .witness ws → ws ≠ []
+
+theorem stWNE_pred : StPred (StWNE (α := α)) := ⟨fun _ _ _ _ h => h⟩
+
+theorem stWNE_of_not_witness (path : List (Aff α)) (st : NState α) (h : ∀ ws, st ≠ .witness ws) : StWNE path st :=
+  fun ws hw => absurd hw (h ws)
+
+/-- the three phases never store an empty witness list, whatever the solver answers -/
+theorem decideNode_wne {σ : Type} (tol : α) (O : Oracles σ α) (hmn : MirrorNonempty O.mirror) (n : Nat) (s : σ)
+    (node : Nat) (pst : NState α) (path : List (Aff α)) (hyper : Aff α) (hp : StWNE path pst) :
+    StWNE (path ++ [hyper]) (decideNode tol O s node pst path hyper n).1 := by
+  unfold decideNode
+  simp only
+  have hinh : StWNE (path ++ [hyper]) (phaseInh tol pst hyper) := by
+    unfold phaseInh
+    cases pst with
+    | witness ws =>
+      simp only
+      split
+      · exact stWNE_of_not_witness _ _ (by intro ws h; cases h)
+      · rename_i hne
+        intro ws' hw
+        cases hw
+        intro he; rw [he] at hne; simp at hne
+    | _ => exact stWNE_of_not_witness _ _ (by intro ws h; cases h)
+  cases hst : phaseInh tol pst hyper with
+  | indeterminate =>
+    simp only
+    have hone : StWNE (path ++ [hyper]) (phaseOne O s node pst (Poly.intersectionN n (path ++ [hyper]))).1 := by
+      unfold phaseOne
+      cases pst with
+      | witness ws =>
+        simp only
+        rcases h : O.mirror s node (Poly.intersectionN n (path ++ [hyper])) ws 8 with ⟨r, s'⟩
+        cases r with
+        | none => exact stWNE_of_not_witness _ _ (by intro ws h; cases h)
+        | some pts =>
+          intro ws' hw
+          cases hw
+          exact hmn s node _ ws 8 pts s' h
+      | _ => exact stWNE_of_not_witness _ _ (by intro ws h; cases h)
+    rcases h1 : phaseOne O s node pst (Poly.intersectionN n (path ++ [hyper])) with ⟨st1, s1⟩
+    rw [h1] at hone
+    cases st1 with
+    | indeterminate =>
+      simp only
+      unfold phaseTwo
+      rcases hr : O.lp s1 (Poly.intersectionN n (path ++ [hyper])) (zeros n) with ⟨a, s2⟩
+      cases a with
+      | infeasible => exact stWNE_of_not_witness _ _ (by intro ws h; cases h)
+      | error => exact stWNE_of_not_witness _ _ (by intro ws h; cases h)
+      | unbounded => exact stWNE_of_not_witness _ _ (by intro ws h; cases h)
+      | optimal sol =>
+        simp only
+        split
+        · intro ws h; cases h; simp
+        · rcases hm : O.mirror s2 node (Poly.intersectionN n (path ++ [hyper])) [sol] 20 with ⟨r, s3⟩
+          cases r with
+          | none => exact stWNE_of_not_witness _ _ (by intro ws h; cases h)
+          | some pts =>
+            cases pts with
+            | nil => exact stWNE_of_not_witness _ _ (by intro ws h; cases h)
+            | cons p ps =>
+              simp only
+              split
+              · intro ws h; cases h; simp
+              · exact stWNE_of_not_witness _ _ (by intro ws h; cases h)
+    | infeasible => exact hone
+    | feasible => exact hone
+    | witness ws => exact hone
+  | infeasible => rw [hst] at hinh; exact hinh
+  | feasible => rw [hst] at hinh; exact hinh
+  | witness ws => rw [hst] at hinh; exact hinh
+
+theorem stWNE_plant (path : List (Aff α)) (st : NState α) (pts : List (List α)) (h : StWNE path st) :
+    StWNE path (NState.plant pts st) := by
+  cases st with
+  | witness ws =>
+    intro ws' hw
+    simp only [NState.plant, NState.witness.injEq] at hw
+    subst hw
+    have := h ws rfl
+    cases ws with
+    | nil => exact absurd rfl this
+    | cons w rest => simp
+  | indeterminate => simpa [NState.plant] using h
+  | infeasible => simpa [NState.plant] using h
+  | feasible => simpa [NState.plant] using h
+
 end AV
